@@ -13,6 +13,8 @@
 int g_d; /* ghost: any offset */
 #define CONTRACT_STENCIL                                                                                              \
   __CPROVER_requires(-C09_B < wmin && wmin <= wmax && wmax < C09_B && -C09_B < lo && lo <= hi && hi < C09_B && lo <= c && c <= hi) \
+  /* index ranges of rows that belong to other axes: any valid ranges */                                               \
+  __CPROVER_requires(-C09_B < owmin && owmin <= owmax && owmax < C09_B && -C09_B < olo && olo <= ohi && ohi < C09_B)  \
   __CPROVER_requires(__CPROVER_is_fresh(min_d, sizeof(int)) && __CPROVER_is_fresh(max_d, sizeof(int)))                 \
   __CPROVER_assigns(*min_d, *max_d)                                                                                    \
   /* soundness: every visited offset addresses a voxel inside the image and a weight inside the weights array */     \
